@@ -65,14 +65,14 @@ def run(ctx):
     # flipped with every mask
     scripts = ctx.tlc_gen("MC_Wal", GEN.format(maxh=4 if q else 6, maxa=3 if q else 4, masks="{1, 128}" if q else "{1, 128, 255}",
                                                 legacy="FALSE", view="VIEW View", emit="ACTION_CONSTRAINT Emit", extra=""),
-                          "cover", workers=4, timeout=2400)
+                          "cover", workers=1, timeout=2400)   # one worker = strict BFS = the same representative histories every run
     # every operation sequence of length 3/4 (no VIEW): histories the state-based cover reaches by one path only
-    scripts += ctx.tlc_gen("MC_Wal", GEN.format(maxh=3 if q else 4, maxa=3, masks="{128}" if q else "{1, 255}", legacy="FALSE", view="",
+    scripts += ctx.tlc_gen("MC_Wal", GEN.format(maxh=3 if q else 4, maxa=3, masks="{128}" if q else "{255}", legacy="FALSE", view="",
                                                  emit="ACTION_CONSTRAINT EmitLeaf", extra=""),
                            "allseq", workers=4, timeout=2400)
     # long random walks (several crashes and reopenings in one history)
     scripts += ctx.tlc_gen("MC_Wal", GEN.format(maxh=12, maxa=6, masks="{1, 128}", legacy="FALSE", view="", emit="", extra="SimEmit"),
-                           "walks", simulate=(150 if q else 3000, 13), workers=4)
+                           "walks", simulate=(150 if q else 2000, 13), workers=1)
     ctx.assume("a crash loses exactly what the BufWriter holds (records total < 8 KiB per session, so the writer never flushes on "
                "its own) and tears only the newest file; one byte flip per history, always the last step",
                "replay reads the files, not the writer's buffer: the durable log is what has been flushed",
